@@ -9,8 +9,8 @@
 #include <type_traits>
 using namespace vf;
 
-static const size_t NP = 7;
-static size_t Pv(size_t i, size_t npos) { return i == 6 ? npos : i; }
+static const size_t NP = 8;       // positions / counts 0..5, npos and npos - 1 (pos + n wraps around)
+static size_t Pv(size_t i, size_t npos) { return i == 6 ? npos : i == 7 ? npos - 1 : i; }
 static long long R(size_t r, size_t npos) { return r == npos ? -1 : (long long)r; }
 static std::string bytes(const char* p, size_t n) { std::string s = "["; for (size_t i = 0; i < n; ++i) s += std::string(i ? "," : "") + std::to_string((unsigned char)p[i]); return s + "]"; }
 static const char* B(bool b) { return b ? "true" : "false"; }
@@ -32,8 +32,8 @@ static std::string results(const std::string& hs, const std::string& ns) {
     arr("ffno", [&](size_t p) { return std::to_string(R(h.find_first_not_of(n, p), npos)); });
     arr("flno", [&](size_t p) { return std::to_string(R(h.find_last_not_of(n, p), npos)); });
     arr("at", [&](size_t p) { try { return std::to_string((unsigned char)h.at(p)); } catch (const std::out_of_range&) { return std::string("-2"); } });
-    arr("rmpre", [&](size_t p) { if (p == npos || p > hs.size()) return std::string("[]"); V c = h; c.remove_prefix(p); return bytes(c.data(), c.size()); });
-    arr("rmsuf", [&](size_t p) { if (p == npos || p > hs.size()) return std::string("[]"); V c = h; c.remove_suffix(p); return bytes(c.data(), c.size()); });
+    arr("rmpre", [&](size_t p) { if (p >= npos - 1 || p > hs.size()) return std::string("[]"); V c = h; c.remove_prefix(p); return bytes(c.data(), c.size()); });
+    arr("rmsuf", [&](size_t p) { if (p >= npos - 1 || p > hs.size()) return std::string("[]"); V c = h; c.remove_suffix(p); return bytes(c.data(), c.size()); });
     auto arr2 = [&](const char* name, auto f) {
         o += std::string(",\"") + name + "\":[";
         for (size_t i = 0; i < NP; ++i) { o += std::string(i ? "," : "") + "["; for (size_t j = 0; j < NP; ++j) o += std::string(j ? "," : "") + f(Pv(i, npos), Pv(j, npos)); o += "]"; }
@@ -119,7 +119,7 @@ static std::string results_x(const std::string& hs, const std::string& ns) {
     }
     // aliasing views: sub = h.substr(p, c) shares h's storage
     arr2("al", [&](size_t p, size_t c) {
-        if (p == npos || p > hs.size()) return std::string("[]");
+        if (p >= npos - 1 || p > hs.size()) return std::string("[]");
         V sub = h.substr(p, c);
         std::string a = "[";
         a += std::string(B(h == sub)) + "," + B(h != sub) + "," + B(h < sub) + "," + B(h > sub) + "," + B(h <= sub) + "," + B(h >= sub);
@@ -127,7 +127,7 @@ static std::string results_x(const std::string& hs, const std::string& ns) {
         a += std::string(",") + B(h.starts_with(sub)) + "," + B(h.ends_with(sub));
         return a + "]"; });
     arr2("al_n", [&](size_t p, size_t c) {
-        if (p == npos || p > hs.size()) return std::string("[]");
+        if (p >= npos - 1 || p > hs.size()) return std::string("[]");
         V sub = h.substr(p, c);
         std::string a = "[";
         a += std::to_string(h.compare(sub)) + "," + std::to_string(sub.compare(h)) + "," + std::to_string(R(h.find(sub), npos)) + "," + std::to_string(R(h.rfind(sub), npos));
